@@ -19,6 +19,12 @@ pub struct Line2 {
     pub end: Point2<f64>,
 }
 
+/// The relative value of the cross product below which two segments are considered parallel.
+const PARALLEL_TOLERANCE: f64 = 1e-12;
+/// The distance beyond the ends of a segment, as a fraction of its length, which is still
+/// considered part of the segment.
+const END_TOLERANCE: f64 = 1e-10;
+
 impl Intersect for Line2 {
     /// Determine whether two line segments intersect
     ///
@@ -34,8 +40,11 @@ impl Intersect for Line2 {
         //
         let u_b = other.dy() * self.dx() - other.dx() * self.dy();
         // Where u_b == 0 the two lines are parallel. In this case we don't need any further checks
-        // since we are only concerned with lines that cross, parallel is fine.
-        if u_b == 0. {
+        // since we are only concerned with lines that cross, parallel is fine. Rounding of the
+        // transformed coordinates means parallel lines rarely give exactly zero, so the comparison
+        // is relative to the lengths of the two segments.
+        let lengths = (self.dx().hypot(self.dy())) * (other.dx().hypot(other.dy()));
+        if u_b.abs() <= PARALLEL_TOLERANCE * lengths {
             return false;
         }
 
@@ -47,7 +56,13 @@ impl Intersect for Line2 {
         let ua = ua_t / u_b;
         let ub = ub_t / u_b;
         // Should the points ua, ub both lie on the interval [0, 1] the lines intersect.
-        if 0. <= ua && ua <= 1. && 0. <= ub && ub <= 1. {
+        // A segment ending on the other segment counts as an intersection, the tolerance ensures
+        // this remains true when the end point is displaced by rounding.
+        if -END_TOLERANCE <= ua
+            && ua <= 1. + END_TOLERANCE
+            && -END_TOLERANCE <= ub
+            && ub <= 1. + END_TOLERANCE
+        {
             return true;
         }
         false
